@@ -49,3 +49,68 @@ func NamesakeLenses(h *H) {
 	Lens(h, l3, func(p *ut.Pt) *int64 { return &p.Y })
 	MustPanic(h, "ForProduct1[ut.Pt, string]('A'): only the namesake container has a field A", func() { optics.ForProduct1[ut.Pt, string]("A") })
 }
+
+// GenericListings: containers that are instantiations of one generic struct type (the type name carries the type
+// arguments), unfolded alternately, and a struct that embeds an instantiated generic struct.
+func GenericListings(h *H) {
+	a := []Entry[ut.Box[int8]]{
+		{Name: "Head", Key: "Head", Type: T[int8](), Pure: T[int8](), Addr: func(p *ut.Box[int8]) unsafe.Pointer { return unsafe.Pointer(&p.Head) }},
+		{Name: "Tail", Key: "Tail", Type: T[[]int8](), Pure: T[[]int8](), Addr: func(p *ut.Box[int8]) unsafe.Pointer { return unsafe.Pointer(&p.Tail) }},
+		{Name: "N", Key: "N", Type: T[int](), Pure: T[int](), Addr: func(p *ut.Box[int8]) unsafe.Pointer { return unsafe.Pointer(&p.N) }},
+	}
+	b := []Entry[ut.Box[string]]{
+		{Name: "Head", Key: "Head", Type: T[string](), Pure: T[string](), Addr: func(p *ut.Box[string]) unsafe.Pointer { return unsafe.Pointer(&p.Head) }},
+		{Name: "Tail", Key: "Tail", Type: T[[]string](), Pure: T[[]string](), Addr: func(p *ut.Box[string]) unsafe.Pointer { return unsafe.Pointer(&p.Tail) }},
+		{Name: "N", Key: "N", Type: T[int](), Pure: T[int](), Addr: func(p *ut.Box[string]) unsafe.Pointer { return unsafe.Pointer(&p.N) }},
+	}
+	c := []Entry[ut.Wrap[int64]]{
+		{Name: "Box", Key: "Box", Type: T[ut.Box[int64]](), Pure: T[ut.Box[int64]](), Addr: func(p *ut.Wrap[int64]) unsafe.Pointer { return unsafe.Pointer(&p.Box) }},
+		{Name: "Head", Key: "Head", Type: T[int64](), Pure: T[int64](), Addr: func(p *ut.Wrap[int64]) unsafe.Pointer { return unsafe.Pointer(&p.Head) }},
+		{Name: "Tail", Key: "Tail", Type: T[[]int64](), Pure: T[[]int64](), Addr: func(p *ut.Wrap[int64]) unsafe.Pointer { return unsafe.Pointer(&p.Tail) }},
+		{Name: "N", Key: "N", Type: T[int](), Pure: T[int](), Addr: func(p *ut.Wrap[int64]) unsafe.Pointer { return unsafe.Pointer(&p.N) }},
+		{Name: "Label", Key: "label", Type: T[string](), Pure: T[string](), Addr: func(p *ut.Wrap[int64]) unsafe.Pointer { return unsafe.Pointer(&p.Label) }},
+	}
+	Listing(h, a)
+	sb := Listing(h, b)
+	sa := Listing(h, a)
+	sc := Listing(h, c)
+	ByName(h, sa, a, "Head", 0)
+	ByName(h, sb, b, "Head", 0)
+	ByName(h, sc, c, "Head", 1)
+	ByName(h, sc, c, "label", 4)
+	ByName(h, sc, c, "Label", -1)
+	ByType[ut.Box[int8], int8](h, sa, a, 0)
+	ByType[ut.Box[string], string](h, sb, b, 0)
+	ByType[ut.Box[string], int8](h, sb, b, -1)
+	ByType[ut.Wrap[int64], ut.Box[int64]](h, sc, c, 0)
+	ByType[ut.Wrap[int64], ut.Box[int8]](h, sc, c, -1)
+}
+
+// GenericLenses: lenses into instantiations of a generic container, alternately, and through an embedded one.
+func GenericLenses(h *H) {
+	var l1 optics.Lens[ut.Box[int8], int8]
+	var l2 optics.Lens[ut.Box[string], string]
+	var l3 optics.Lens[ut.Box[int8], []int8]
+	var l4 optics.Lens[ut.Wrap[int64], int64]
+	var l5 optics.Lens[ut.Wrap[int64], ut.Box[int64]]
+	var l6 optics.Lens[ut.Wrap[int64], string]
+	if !MustNotPanic(h, "ForProduct1 on instantiations of generic containers (ut.Box[int8], ut.Box[string], ut.Wrap[int64])", func() {
+		l1 = optics.ForProduct1[ut.Box[int8], int8]("Head")
+		l2 = optics.ForProduct1[ut.Box[string], string]("Head")
+		l3 = optics.ForProduct1[ut.Box[int8], []int8]()
+		l4 = optics.ForProduct1[ut.Wrap[int64], int64]("Head")
+		l5 = optics.ForProduct1[ut.Wrap[int64], ut.Box[int64]]("Box")
+		l6 = optics.ForProduct1[ut.Wrap[int64], string]("label")
+	}) {
+		return
+	}
+	Lens(h, l1, func(p *ut.Box[int8]) *int8 { return &p.Head })
+	Lens(h, l2, func(p *ut.Box[string]) *string { return &p.Head })
+	Lens(h, l3, func(p *ut.Box[int8]) *[]int8 { return &p.Tail })
+	Lens(h, l4, func(p *ut.Wrap[int64]) *int64 { return &p.Head })
+	Lens(h, l5, func(p *ut.Wrap[int64]) *ut.Box[int64] { return &p.Box })
+	Lens(h, l6, func(p *ut.Wrap[int64]) *string { return &p.Label })
+	MustPanic(h, "ForProduct1[ut.Box[int8], string]('Head'): Head is an int8 in this instantiation", func() { optics.ForProduct1[ut.Box[int8], string]("Head") })
+	MustPanic(h, "ForProduct1[ut.Wrap[int64], ut.Box[int8]]('Box'): the embedded struct is another instantiation of the generic type", func() { optics.ForProduct1[ut.Wrap[int64], ut.Box[int8]]("Box") })
+	MustPanic(h, "ForProduct1[ut.Wrap[int64], ut.Box[int8]](): no field has that instantiation", func() { optics.ForProduct1[ut.Wrap[int64], ut.Box[int8]]() })
+}
